@@ -681,125 +681,157 @@ def main(out_path):
 
     # ---- literals inside functions (ast patterns, fail-closed) ----
     t_main = ast.parse(src('ssh_audit.py'))
-    # ranked_return_codes = [exitcodes.GOOD, ...]
-    found = []
-    for n in ast.walk(func_node(t_main, 'main')):
-        if isinstance(n, ast.Assign) and len(n.targets) == 1 and isinstance(n.targets[0], ast.Name) and n.targets[0].id == 'ranked_return_codes':
-            need(isinstance(n.value, ast.List), 'ranked_return_codes not a list')
-            names = []
-            for e in n.value.elts:
-                need(isinstance(e, ast.Attribute) and isinstance(e.value, ast.Name) and e.value.id == 'exitcodes', 'ranked_return_codes element')
-                names.append(e.attr)
-            found.append(names)
-    need(len(found) == 1, 'ranked_return_codes pattern')
-    w('Definition ranked_return_codes : list Z := [' + '; '.join('exit_' + x for x in found[0]) + '].')
+    # Each of the following extractions is needed to BUILD the models (they are definitions the models use).  When the source no longer has the expected shape the
+    # definition falls back to the value it had when this framework was written - so that the other properties' models still build and their checks are not
+    # disturbed - and extract_ok_<name> becomes false, which the tie file of the owning property requires to be true (only that property's check then fails).
+    early_failures = []
 
-    # audit(): DHEat.dh_rate_test(out, aconf, kex, 1.5, 38, 3)
-    found = []
-    for n in ast.walk(func_node(t_main, 'audit')):
-        if isinstance(n, ast.Call) and isinstance(n.func, ast.Attribute) and n.func.attr == 'dh_rate_test' and len(n.args) == 6:
-            found.append([lit(a) for a in n.args[3:]])
-    need(len(found) == 2, 'dh_rate_test call sites: %r' % (found,))
-    std = [f for f in found if f != [0, 0, 0]]
-    need(len(std) == 1, 'standard dh_rate_test call')
-    mt, mc, cs = std[0]
-    need(isinstance(mc, int) and isinstance(cs, int), 'rate test ints')
-    w('Definition rate_max_time_ms : Z := %s.' % cz(int(round(mt * 1000))))
-    w('Definition rate_max_connections : Z := %s.' % cz(mc))
-    w('Definition rate_concurrent_sockets : Z := %s.' % cz(cs))
+    class guarded:
+        def __init__(self, name, props, fallback):
+            self.name, self.props, self.fallback = name, props, fallback
 
-    # algorithms.py: chg list, vproducts
-    t_algs = ast.parse(src('algorithms.py'))
-    chg = []
-    for n in ast.walk(func_node(t_algs, 'get_recommendations')):
-        if isinstance(n, ast.Compare) and len(n.ops) == 1 and isinstance(n.ops[0], ast.In) and isinstance(n.left, ast.Name) and n.left.id == 'n' and isinstance(n.comparators[0], ast.List):
-            chg.append(lit(n.comparators[0]))
-    need(len(chg) == 1, 'chg-list pattern')
-    w('Definition rec_chg_names : list string := ' + cstrs(chg[0]) + '.')
-    vp = []
-    for n in ast.walk(func_node(t_algs, 'get_recommendations')):
-        if isinstance(n, ast.Assign) and isinstance(n.targets[0], ast.Name) and n.targets[0].id == 'vproducts':
-            need(isinstance(n.value, ast.List), 'vproducts')
-            for e in n.value.elts:
-                need(isinstance(e, ast.Attribute) and e.value.id == 'Product', 'vproducts elt')
-                vp.append(e.attr)
-    need(len(vp) >= 1, 'vproducts pattern')
-    w('Definition rec_vproducts : list string := [' + '; '.join('product_' + x for x in vp) + '].')
+        def __enter__(self):
+            self.mark = len(o)
 
-    # gextest.py run(): first probe (512,1024,1536), the list, second pass (2048,3072,4096), GEX_ALGS keys
-    t_gex = ast.parse(src('gextest.py'))
-    run = func_node(t_gex, 'GEXTest.run')
-    sends = []
-    for n in ast.walk(run):
-        if isinstance(n, ast.Call) and isinstance(n.func, ast.Attribute) and n.func.attr == '_send_init':
-            sends.append(n.args[5:8])
-    need(len(sends) == 3, 'gextest _send_init sites')
-    lits = []
-    for a in sends:
-        try:
-            lits.append([ast.literal_eval(x) for x in a])
-        except Exception:
-            lits.append(None)
-    consts = [x for x in lits if x is not None]
-    need(len(consts) == 2 and lits[1] is None, 'gextest _send_init literal sites: %r' % (lits,))
-    w('Definition gex_first_probe : (Z * Z * Z) := (%s, %s, %s).' % tuple(cz(x) for x in consts[0]))
-    w('Definition gex_second_pass : (Z * Z * Z) := (%s, %s, %s).' % tuple(cz(x) for x in consts[1]))
-    loops = [n for n in ast.walk(run) if isinstance(n, ast.For) and isinstance(n.target, ast.Name) and n.target.id == 'bits']
-    need(len(loops) == 1 and isinstance(loops[0].iter, ast.List), 'gextest bits loop')
-    w('Definition gex_probe_sizes : list Z := ' + clist(lit(loops[0].iter), cz) + '.')
-    gk = []
-    for n in ast.walk(run):
-        if isinstance(n, ast.Assign) and isinstance(n.targets[0], ast.Name) and n.targets[0].id == 'GEX_ALGS':
-            need(isinstance(n.value, ast.Dict), 'GEX_ALGS')
-            gk.append([lit(k) for k in n.value.keys])
-    need(len(gk) == 1, 'GEX_ALGS pattern')
-    w('Definition gex_algs : list string := ' + cstrs(gk[0]) + '.')
-    # thresholds in gextest.run: `smallest_modulus < 2048`, `< 3072`, `== 2048`
-    cmps = []
-    for n in ast.walk(run):
-        if isinstance(n, ast.Compare) and isinstance(n.left, ast.Name) and n.left.id == 'smallest_modulus' and len(n.ops) == 1 and isinstance(n.comparators[0], ast.Constant):
-            cmps.append((type(n.ops[0]).__name__, n.comparators[0].value))
-    need(sorted(cmps) == sorted([('Eq', 2048), ('Gt', 0), ('NotEq', 2048), ('Gt', 0), ('Lt', 2048), ('Lt', 3072)]), 'gextest thresholds: %r' % (cmps,))
-    w('Definition gex_fail_below : Z := 2048. Definition gex_warn_below : Z := 3072. Definition gex_openssh_trigger : Z := 2048.')
+        def __exit__(self, et, ev, tb):
+            if et is not None and issubclass(et, (TranslateError, AttributeError, IndexError, KeyError, TypeError, ValueError)):
+                del o[self.mark:]
+                w('(* EXTRACTION FAILED (%s): %s -- fallback values follow; the tie lemma extract_ok of %s cannot be proved *)' % (self.name, str(ev).replace('*)', '* )')[:300], ', '.join(self.props)))
+                for ln in self.fallback:
+                    w(ln)
+                w('Definition extract_ok_%s : bool := false.' % self.name)
+                early_failures.append({'what': self.name, 'properties': self.props, 'reason': '%s: %s' % (et.__name__, str(ev)[:300])})
+                return True
+            if et is None:
+                w('Definition extract_ok_%s : bool := true.' % self.name)
+            return False
 
-    # hostkeytest.py: KEX_TO_DHGROUP keys; thresholds
-    t_hk = ast.parse(src('hostkeytest.py'))
-    kk = []
-    for n in ast.walk(func_node(t_hk, 'HostKeyTest.run')):
-        if isinstance(n, ast.Assign) and isinstance(n.targets[0], ast.Name) and n.targets[0].id == 'KEX_TO_DHGROUP':
-            kk.append([(lit(k), v.id) for k, v in zip(n.value.keys, n.value.values)])
-    need(len(kk) == 1, 'KEX_TO_DHGROUP pattern')
-    w('Definition hk_kex_to_group : list (string * string) := ' + clist(kk[0], lambda kv: cpair(cstr(kv[0]), cstr(kv[1]))) + '.')
-    pt = func_node(t_hk, 'HostKeyTest.perform_test')
-    th = {}
-    for n in ast.walk(pt):
-        if isinstance(n, ast.Assign) and isinstance(n.value, ast.Constant) and isinstance(n.value.value, int):
-            for t in n.targets:
-                if isinstance(t, ast.Name):
-                    th.setdefault(t.id, []).append(n.value.value)
-    for k, exp in (('hostkey_min_good', [3072, 256]), ('cakey_min_good', [3072, 256]), ('hostkey_min_warn', [2048, 224]), ('cakey_min_warn', [2048, 224])):
-        need(th.get(k) == exp, 'hostkeytest threshold %s = %r' % (k, th.get(k)))
-    w('Definition hk_min_good_rsa : Z := 3072. Definition hk_min_warn_rsa : Z := 2048. Definition hk_min_good_ecc : Z := 256. Definition hk_min_warn_ecc : Z := 224.')
+    with guarded('ranked_return_codes', ['C08'], ['Definition ranked_return_codes : list Z := [exit_GOOD; exit_WARNING; exit_FAILURE; exit_CONNECTION_ERROR; exit_UNKNOWN_ERROR].']):
+        # ranked_return_codes = [exitcodes.GOOD, ...]
+        found = []
+        for n in ast.walk(func_node(t_main, 'main')):
+            if isinstance(n, ast.Assign) and len(n.targets) == 1 and isinstance(n.targets[0], ast.Name) and n.targets[0].id == 'ranked_return_codes':
+                need(isinstance(n.value, ast.List), 'ranked_return_codes not a list')
+                names = []
+                for e in n.value.elts:
+                    need(isinstance(e, ast.Attribute) and isinstance(e.value, ast.Name) and e.value.id == 'exitcodes', 'ranked_return_codes element')
+                    names.append(e.attr)
+                found.append(names)
+        need(len(found) == 1, 'ranked_return_codes pattern')
+        w('Definition ranked_return_codes : list Z := [' + '; '.join('exit_' + x for x in found[0]) + '].')
 
-    # ssh_socket.send_kexinit defaults
-    t_sock = ast.parse(src('ssh_socket.py'))
-    sk = func_node(t_sock, 'SSH_Socket.send_kexinit')
-    names = [a.arg for a in sk.args.args][1:]
-    defs = [lit(d) for d in sk.args.defaults]
-    need(names == ['key_exchanges', 'hostkeys', 'ciphers', 'macs', 'compressions', 'languages'] and len(defs) == 6, 'send_kexinit signature')
-    for nme, d in zip(names, defs):
-        w('Definition kexinit_default_%s : list string := %s.' % (nme, cstrs(d)))
+    with guarded('rate_check_arguments', ['C19'], ['Definition rate_max_time_ms : Z := 1500.', 'Definition rate_max_connections : Z := 38.', 'Definition rate_concurrent_sockets : Z := 3.']):
+        # audit(): DHEat.dh_rate_test(out, aconf, kex, 1.5, 38, 3)
+        found = []
+        for n in ast.walk(func_node(t_main, 'audit')):
+            if isinstance(n, ast.Call) and isinstance(n.func, ast.Attribute) and n.func.attr == 'dh_rate_test' and len(n.args) == 6:
+                found.append([lit(a) for a in n.args[3:]])
+        need(len(found) == 2, 'dh_rate_test call sites: %r' % (found,))
+        std = [f for f in found if f != [0, 0, 0]]
+        need(len(std) == 1, 'standard dh_rate_test call')
+        mt, mc, cs = std[0]
+        need(isinstance(mc, int) and isinstance(cs, int), 'rate test ints')
+        w('Definition rate_max_time_ms : Z := %s.' % cz(int(round(mt * 1000))))
+        w('Definition rate_max_connections : Z := %s.' % cz(mc))
+        w('Definition rate_concurrent_sockets : Z := %s.' % cz(cs))
 
-    # ssh_audit.post_process_findings: marker names and the terrapin text
-    pp = func_node(t_main, 'post_process_findings')
-    strs = sorted({n.value for n in ast.walk(pp) if isinstance(n, ast.Constant) and isinstance(n.value, str)})
-    PP_LITERALS = ('kex-strict-c-v00@openssh.com', 'kex-strict-s-v00@openssh.com', 'chacha20-poly1305', '-cbc', '-cbc@openssh.org', '-cbc@ssh.com', 'rijndael-cbc@lysator.liu.se', 'des-cbc-ssh1', '-etm@openssh.com')
-    tw = [s for s in strs if s.startswith('vulnerable to the Terrapin attack')]
-    need(len(tw) == 1, 'terrapin warning text')
-    w('Definition terrapin_warning : string := ' + cstr(tw[0]) + '.')
-    gn = [s for s in strs if s.startswith('A bug in OpenSSH causes it to fall back')]
-    need(len(gn) == 1, 'openssh 2048 note text')
-    w('Definition openssh_2048_note : string := ' + cstr(gn[0]) + '.')
+    with guarded('recommendation_lists', ['C13'], ['Definition rec_chg_names : list string := ["diffie-hellman-group-exchange-sha256"; "rsa-sha2-256"; "rsa-sha2-512"; "rsa-sha2-256-cert-v01@openssh.com"; "rsa-sha2-512-cert-v01@openssh.com"].', 'Definition rec_vproducts : list string := [product_OpenSSH; product_DropbearSSH; product_LibSSH; product_TinySSH].']):
+        # algorithms.py: chg list, vproducts
+        t_algs = ast.parse(src('algorithms.py'))
+        chg = []
+        for n in ast.walk(func_node(t_algs, 'get_recommendations')):
+            if isinstance(n, ast.Compare) and len(n.ops) == 1 and isinstance(n.ops[0], ast.In) and isinstance(n.left, ast.Name) and n.left.id == 'n' and isinstance(n.comparators[0], ast.List):
+                chg.append(lit(n.comparators[0]))
+        need(len(chg) == 1, 'chg-list pattern')
+        w('Definition rec_chg_names : list string := ' + cstrs(chg[0]) + '.')
+        vp = []
+        for n in ast.walk(func_node(t_algs, 'get_recommendations')):
+            if isinstance(n, ast.Assign) and isinstance(n.targets[0], ast.Name) and n.targets[0].id == 'vproducts':
+                need(isinstance(n.value, ast.List), 'vproducts')
+                for e in n.value.elts:
+                    need(isinstance(e, ast.Attribute) and e.value.id == 'Product', 'vproducts elt')
+                    vp.append(e.attr)
+        need(len(vp) >= 1, 'vproducts pattern')
+        w('Definition rec_vproducts : list string := [' + '; '.join('product_' + x for x in vp) + '].')
+
+    with guarded('gex_probe_constants', ['C12'], ['Definition gex_first_probe : (Z * Z * Z) := (512, 1024, 1536).', 'Definition gex_second_pass : (Z * Z * Z) := (2048, 3072, 4096).', 'Definition gex_probe_sizes : list Z := [512; 768; 1024; 1536; 2048; 3072; 4096].', 'Definition gex_algs : list string := ["diffie-hellman-group-exchange-sha1"; "diffie-hellman-group-exchange-sha256"].', 'Definition gex_fail_below : Z := 2048. Definition gex_warn_below : Z := 3072. Definition gex_openssh_trigger : Z := 2048.']):
+        # gextest.py run(): first probe (512,1024,1536), the list, second pass (2048,3072,4096), GEX_ALGS keys
+        t_gex = ast.parse(src('gextest.py'))
+        run = func_node(t_gex, 'GEXTest.run')
+        sends = []
+        for n in ast.walk(run):
+            if isinstance(n, ast.Call) and isinstance(n.func, ast.Attribute) and n.func.attr == '_send_init':
+                sends.append(n.args[5:8])
+        need(len(sends) == 3, 'gextest _send_init sites')
+        lits = []
+        for a in sends:
+            try:
+                lits.append([ast.literal_eval(x) for x in a])
+            except Exception:
+                lits.append(None)
+        consts = [x for x in lits if x is not None]
+        need(len(consts) == 2 and lits[1] is None, 'gextest _send_init literal sites: %r' % (lits,))
+        w('Definition gex_first_probe : (Z * Z * Z) := (%s, %s, %s).' % tuple(cz(x) for x in consts[0]))
+        w('Definition gex_second_pass : (Z * Z * Z) := (%s, %s, %s).' % tuple(cz(x) for x in consts[1]))
+        loops = [n for n in ast.walk(run) if isinstance(n, ast.For) and isinstance(n.target, ast.Name) and n.target.id == 'bits']
+        need(len(loops) == 1 and isinstance(loops[0].iter, ast.List), 'gextest bits loop')
+        w('Definition gex_probe_sizes : list Z := ' + clist(lit(loops[0].iter), cz) + '.')
+        gk = []
+        for n in ast.walk(run):
+            if isinstance(n, ast.Assign) and isinstance(n.targets[0], ast.Name) and n.targets[0].id == 'GEX_ALGS':
+                need(isinstance(n.value, ast.Dict), 'GEX_ALGS')
+                gk.append([lit(k) for k in n.value.keys])
+        need(len(gk) == 1, 'GEX_ALGS pattern')
+        w('Definition gex_algs : list string := ' + cstrs(gk[0]) + '.')
+        # thresholds in gextest.run: `smallest_modulus < 2048`, `< 3072`, `== 2048`
+        cmps = []
+        for n in ast.walk(run):
+            if isinstance(n, ast.Compare) and isinstance(n.left, ast.Name) and n.left.id == 'smallest_modulus' and len(n.ops) == 1 and isinstance(n.comparators[0], ast.Constant):
+                cmps.append((type(n.ops[0]).__name__, n.comparators[0].value))
+        need(sorted(cmps) == sorted([('Eq', 2048), ('Gt', 0), ('NotEq', 2048), ('Gt', 0), ('Lt', 2048), ('Lt', 3072)]), 'gextest thresholds: %r' % (cmps,))
+        w('Definition gex_fail_below : Z := 2048. Definition gex_warn_below : Z := 3072. Definition gex_openssh_trigger : Z := 2048.')
+
+    with guarded('hostkey_probe_constants', ['C11'], ['Definition hk_kex_to_group : list (string * string) := [("diffie-hellman-group1-sha1", "KexGroup1"); ("diffie-hellman-group14-sha1", "KexGroup14_SHA1"); ("diffie-hellman-group14-sha256", "KexGroup14_SHA256"); ("curve25519-sha256", "KexCurve25519_SHA256"); ("curve25519-sha256@libssh.org", "KexCurve25519_SHA256"); ("diffie-hellman-group16-sha512", "KexGroup16_SHA512"); ("diffie-hellman-group18-sha512", "KexGroup18_SHA512"); ("diffie-hellman-group-exchange-sha1", "KexGroupExchange_SHA1"); ("diffie-hellman-group-exchange-sha256", "KexGroupExchange_SHA256"); ("ecdh-sha2-nistp256", "KexNISTP256"); ("ecdh-sha2-nistp384", "KexNISTP384"); ("ecdh-sha2-nistp521", "KexNISTP521")].', 'Definition hk_min_good_rsa : Z := 3072. Definition hk_min_warn_rsa : Z := 2048. Definition hk_min_good_ecc : Z := 256. Definition hk_min_warn_ecc : Z := 224.']):
+        # hostkeytest.py: KEX_TO_DHGROUP keys; thresholds
+        t_hk = ast.parse(src('hostkeytest.py'))
+        kk = []
+        for n in ast.walk(func_node(t_hk, 'HostKeyTest.run')):
+            if isinstance(n, ast.Assign) and isinstance(n.targets[0], ast.Name) and n.targets[0].id == 'KEX_TO_DHGROUP':
+                kk.append([(lit(k), v.id) for k, v in zip(n.value.keys, n.value.values)])
+        need(len(kk) == 1, 'KEX_TO_DHGROUP pattern')
+        w('Definition hk_kex_to_group : list (string * string) := ' + clist(kk[0], lambda kv: cpair(cstr(kv[0]), cstr(kv[1]))) + '.')
+        pt = func_node(t_hk, 'HostKeyTest.perform_test')
+        th = {}
+        for n in ast.walk(pt):
+            if isinstance(n, ast.Assign) and isinstance(n.value, ast.Constant) and isinstance(n.value.value, int):
+                for t in n.targets:
+                    if isinstance(t, ast.Name):
+                        th.setdefault(t.id, []).append(n.value.value)
+        for k, exp in (('hostkey_min_good', [3072, 256]), ('cakey_min_good', [3072, 256]), ('hostkey_min_warn', [2048, 224]), ('cakey_min_warn', [2048, 224])):
+            need(th.get(k) == exp, 'hostkeytest threshold %s = %r' % (k, th.get(k)))
+        w('Definition hk_min_good_rsa : Z := 3072. Definition hk_min_warn_rsa : Z := 2048. Definition hk_min_good_ecc : Z := 256. Definition hk_min_warn_ecc : Z := 224.')
+
+    with guarded('send_kexinit_defaults', ['C19'], ['Definition kexinit_default_key_exchanges : list string := ["curve25519-sha256"; "curve25519-sha256@libssh.org"; "ecdh-sha2-nistp256"; "ecdh-sha2-nistp384"; "ecdh-sha2-nistp521"; "diffie-hellman-group-exchange-sha256"; "diffie-hellman-group16-sha512"; "diffie-hellman-group18-sha512"; "diffie-hellman-group14-sha256"].', 'Definition kexinit_default_hostkeys : list string := ["rsa-sha2-512"; "rsa-sha2-256"; "ssh-rsa"; "ecdsa-sha2-nistp256"; "ssh-ed25519"].', 'Definition kexinit_default_ciphers : list string := ["chacha20-poly1305@openssh.com"; "aes128-ctr"; "aes192-ctr"; "aes256-ctr"; "aes128-gcm@openssh.com"; "aes256-gcm@openssh.com"].', 'Definition kexinit_default_macs : list string := ["umac-64-etm@openssh.com"; "umac-128-etm@openssh.com"; "hmac-sha2-256-etm@openssh.com"; "hmac-sha2-512-etm@openssh.com"; "hmac-sha1-etm@openssh.com"; "umac-64@openssh.com"; "umac-128@openssh.com"; "hmac-sha2-256"; "hmac-sha2-512"; "hmac-sha1"].', 'Definition kexinit_default_compressions : list string := ["none"; "zlib@openssh.com"].', 'Definition kexinit_default_languages : list string := [""].']):
+        # ssh_socket.send_kexinit defaults
+        t_sock = ast.parse(src('ssh_socket.py'))
+        sk = func_node(t_sock, 'SSH_Socket.send_kexinit')
+        names = [a.arg for a in sk.args.args][1:]
+        defs = [lit(d) for d in sk.args.defaults]
+        need(names == ['key_exchanges', 'hostkeys', 'ciphers', 'macs', 'compressions', 'languages'] and len(defs) == 6, 'send_kexinit signature')
+        for nme, d in zip(names, defs):
+            w('Definition kexinit_default_%s : list string := %s.' % (nme, cstrs(d)))
+
+    with guarded('terrapin_texts', ['C04'], ['Definition terrapin_warning : string := "vulnerable to the Terrapin attack (CVE-2023-48795), allowing message prefix truncation".', 'Definition openssh_2048_note : string := "A bug in OpenSSH causes it to fall back to a 2048-bit modulus regardless of server configuration (https://bugzilla.mindrot.org/show_bug.cgi?id=2793)".']):
+        # ssh_audit.post_process_findings: marker names and the terrapin text
+        pp = func_node(t_main, 'post_process_findings')
+        strs = sorted({n.value for n in ast.walk(pp) if isinstance(n, ast.Constant) and isinstance(n.value, str)})
+        PP_LITERALS = ('kex-strict-c-v00@openssh.com', 'kex-strict-s-v00@openssh.com', 'chacha20-poly1305', '-cbc', '-cbc@openssh.org', '-cbc@ssh.com', 'rijndael-cbc@lysator.liu.se', 'des-cbc-ssh1', '-etm@openssh.com')
+        tw = [s for s in strs if s.startswith('vulnerable to the Terrapin attack')]
+        need(len(tw) == 1, 'terrapin warning text')
+        w('Definition terrapin_warning : string := ' + cstr(tw[0]) + '.')
+        gn = [s for s in strs if s.startswith('A bug in OpenSSH causes it to fall back')]
+        need(len(gn) == 1, 'openssh 2048 note text')
+        w('Definition openssh_2048_note : string := ' + cstr(gn[0]) + '.')
 
     # ---- literals and integer kernels that the hand-written models repeat; proofs/TieCnn.v proves each copy equal to what is emitted here.
     # These extractions are SOFT: when the source no longer has the expected shape, the definition is left out (with a comment saying why) and
@@ -810,7 +842,7 @@ def main(out_path):
         mark = len(o)
         try:
             fn()
-        except TranslateError as e:
+        except (TranslateError, NameError, AttributeError, IndexError, KeyError, TypeError) as e:     # NameError: an earlier (guarded) extraction this one builds on has failed
             del o[mark:]
             w('(* NOT EXTRACTED (%s): %s -- the tie lemmas of %s cannot be checked *)' % (what, str(e).replace('*)', '* )')[:300], ', '.join(props)))
             soft_failures.append({'what': what, 'properties': props, 'reason': str(e)[:300]})
@@ -1385,6 +1417,7 @@ def main(out_path):
         inputs = {'Product.' + k: ('product_' + k, 'string') for k in ('OpenSSH', 'DropbearSSH', 'LibSSH')}
         w(kernel('src_get_ssh_version', [('version_desc', 'string')], gv.body, inputs=inputs))
     soft('Algorithm.get_ssh_version', ['C03', 'C13', 'C14'], ex_ssh_version)
+    soft_failures[0:0] = early_failures
     globals()['LAST_SOFT_FAILURES'] = soft_failures
 
     # T1d: message codecs (gen/Codecs.v, beside Tables.v; it depends on model/Wire.v, which depends on Tables.v)
